@@ -83,6 +83,7 @@ pub fn test_ord(c: &OrdCase, ctx: &mut CaseCtx) -> Result<(), String> {
     ctx.class_if(c.n >= 1 << 32, "n>=2^32");
     ctx.class_if(is_wrong, "wrong_suffix");
     ctx.class_if(!c.prefix.is_ascii(), "multibyte_prefix");
+    ctx.class_if(c.postfix.starts_with(['\r', '\u{a0}', '😀', '中', '\u{200b}']) || c.postfix.starts_with("\n\n") || c.postfix.starts_with("\n \n"), "followed_by_unlintable_or_paragraph_break");
     if c.n >= 100 || (11..=13).contains(&(c.n % 100)) || c.case_bits & 3 != 0 {
         ctx.nontrivial(&(c.n, c.suffix, c.case_bits & 3));
     }
@@ -151,6 +152,10 @@ fn frame() -> BoxedStrategy<(String, String)> {
         1 => Just(("Ünïcödé 😀 ".to_string(), " place".to_string())),
         1 => Just(("First.\n\nThen the ".to_string(), ", and the 2nd.".to_string())),
         2 => (g::plain_word(), g::plain_word()).prop_map(|(a, b)| (format!("{a} "), format!(" {b}."))),
+        // followed by something that is neither blank, punctuation nor a word: a CRLF line end, a
+        // no-break space, an emoji, CJK text, a paragraph break
+        3 => (g::sel_str(&["The ", "", "On the "]), g::sel_str(&["\r\nnext line", "\u{a0}item", "😀", " 😀", "中文", "\n\nNext paragraph.", "\n\n", "\r\n\r\nNext.", "\u{200b}x", "\n \n"]))
+            .prop_map(|(a, b)| { (a, b) }),
         1 => Just(("(".to_string(), ")".to_string())),
         1 => Just(("\"".to_string(), "\"".to_string())),
         // joined to a word by a hyphen; other numbers and suffix-like words earlier in the sentence
@@ -187,7 +192,7 @@ fn ord_strategy() -> BoxedStrategy<OrdCase> {
 }
 
 pub fn run(run: &mut Run) {
-    run.rule = "exhaustive: every n in 0..10^5 x {st,nd,rd,th} x letter-case patterns (quick: lower-case + one seed-chosen pattern per n; thorough: all 4) in the frame 'The <n><s> item.'; random: n < 2^53 biased to ..11/12/13, ..01-03, powers of ten/two, 2^53-1, in random frames (start/end of text, after multi-byte text, second paragraph). Non-trivial = n>=100 or n%100 in 11..13 or upper/mixed case; distinct by (n, suffix, case).".into();
+    run.rule = "exhaustive: every n in 0..10^5 x {st,nd,rd,th} x letter-case patterns (quick: lower-case + one seed-chosen pattern per n; thorough: all 4) in the frame 'The <n><s> item.'; random: n < 2^53 biased to ..11/12/13, ..01-03, powers of ten/two, 2^53-1, in random frames (start/end of text, after multi-byte text, second paragraph, directly before a CRLF line end / no-break space / emoji / CJK text / paragraph break). Non-trivial = n>=100 or n%100 in 11..13 or upper/mixed case; distinct by (n, suffix, case).".into();
     let mut cases = Vec::with_capacity(1_700_000);
     let seed = run.seed;
     let all_cases = run.tier == crate::core::Tier::Thorough;
@@ -225,6 +230,7 @@ pub fn run(run: &mut Run) {
     run.require_class("random_below_2_53", "teens", (n / 20) as u64);
     run.require_class("random_below_2_53", "n>=2^32", (n / 20) as u64);
     run.require_class("random_below_2_53", "wrong_suffix", (n / 4) as u64);
+    run.require_class("random_below_2_53", "followed_by_unlintable_or_paragraph_break", (n / 20) as u64);
 }
 
 pub fn replay(_check: &str, case: Value, _run: &mut Run) -> Result<(), String> {
